@@ -13,4 +13,14 @@ def check(path, schema):
 check('/verif/MANIFEST.json', '/root/.vp/MANIFEST.schema.json')
 for p in sorted(glob.glob('/verif/evidence/*.json')):
     check(p, '/root/.vp/EVIDENCE.schema.json')
+man = json.load(open('/verif/MANIFEST.json'))
+for c in man['checks']:
+    try:
+        ev = json.load(open(c['evidence_file']))
+        if ev['level'] != c['level_claimed']['category']:
+            ok = False; print("LEVEL MISMATCH", c['property_id'], ev['level'], c['level_claimed']['category'])
+        if ev.get('violations', 0):
+            ok = False; print("EVIDENCE HAS VIOLATIONS", c['property_id'])
+    except FileNotFoundError:
+        ok = False; print("NO EVIDENCE", c['property_id'])
 sys.exit(0 if ok else 1)
